@@ -58,7 +58,11 @@ func guardOverRoots(c *core.Ctx, r *core.Rule) {
 				if wl < d.MinLen {
 					wl = d.MinLen
 				}
-				r.Violate(key, p.InstrPos(s.Ins), fmt.Sprintf("%s needs len >= %d but the dominating guards only establish >= %d (%s); an input of %d bytes reaching this site panics", s.What, s.Need, s.Have, s.Why, wl),
+				msg := fmt.Sprintf("%s needs len >= %d but the dominating guards only establish >= %d (%s); an input of %d bytes reaching this site panics", s.What, s.Need, s.Have, s.Why, wl)
+				if strings.Contains(s.What, "offset") {
+					msg = fmt.Sprintf("%s: %s; an input that ends exactly where the guard is satisfied panics here", s.What, s.Why)
+				}
+				r.Violate(key, p.InstrPos(s.Ins), msg,
 					map[string]any{"need_len": s.Need, "have_len": s.Have, "guards_on_path": s.Guards, "root": d.Kind, "witness_len": wl,
 						"how_to_see_it": "call " + core.FnKey(d.Fn) + " (directly, or NewPacket with SkipDecodeRecovery) on an input of witness_len bytes that satisfies the content conditions on the path to " + p.InstrPos(s.Ins)})
 			default:
